@@ -32,7 +32,8 @@ FAMILY = param("C20_FAMILY", quick=0, thorough=0)   # 0: module level, 1: class 
 merge_pyi._merge_csts = untraced(merge_pyi._merge_csts)  # pylint: disable=protected-access
 
 VAR_TYPES = [None, "str", "list[int]", "Any", "Never", "Optional[int]"]
-PARAM_TYPES = ["int", "list[int]", "Any", "T", "Optional[int]", "Decimal"]
+PARAM_TYPES = ["int", "Any", "T", "Decimal", "list[int]", "Optional[int]"]
+NPT = param("C20_NPT", quick=len(PARAM_TYPES), thorough=len(PARAM_TYPES))   # class family: first NPT parameter types
 RET_TYPES = ["int", "Any", "Never", "list[int]", "T", None]
 NFUNC = 6
 TRIVIAL = ("int", "str", "float", "bool", "complex")
@@ -45,7 +46,7 @@ else:
   # of a pair must not depend on what was merged before it)
   # cform 4: the program already carries bare-Any annotations; hdr: 0 = the stub imports from typing,
   # 1 = from typing_extensions
-  RANGES = [5, 4, len(PARAM_TYPES), len(RET_TYPES), 2, 2, 2]
+  RANGES = [5, 4, NPT, len(RET_TYPES), 2, 2, 2]
 SEL = Tuple[(int,) * len(RANGES)]
 
 
